@@ -99,7 +99,9 @@ def run_data(idx, rng, sh):
     segs = [elfgen.Seg(type=1, sec='.plain', vaddr=0x10000), elfgen.Seg(type=3, sec='.interp', vaddr=0x30000),
             elfgen.Seg(type=1, sec='.strs', vaddr=rng.choice([0x20000, 0x10000 + size, 0x10000 + size // 2, 0x10000])),
             elfgen.Seg(type=1, sec='.plain', vaddr=rng.choice([0x10000, 0x10001, 0x40000]), memsz=size + 100),
-            elfgen.Seg(type=6, sec='.plain', vaddr=0x10000)]       # a non-LOAD segment at the same address
+            elfgen.Seg(type=6, sec='.plain', vaddr=0x10000),       # a non-LOAD segment at the same address
+            # non-loadable segments need no memory: the PT_NOTE of a core file has p_memsz 0
+            elfgen.Seg(type=4, sec='.tail', vaddr=0, memsz=rng.choice([0, 1]), exact_memsz=True)]
     rng.shuffle(segs)
     img, info = elfgen.build(cls=cls, le=le, machine=rng.choice([62, 3, 40, 183, 8]), etype=3, sections=secs, segments=segs,
                              gap=rng.choice([0, 3, 17]), filler=rng.choice([0, 0xcc]), rng=rng,
